@@ -43,7 +43,6 @@ theorem verifyLabel_true {vrf : VrfTable} {u : Bytes} {fresh : Bool} {ver : Nat}
     obtain ⟨cu, cf, cv⟩ := cl
     simp only [Bool.and_eq_true, decide_eq_true_eq] at h
     obtain ⟨⟨⟨h1, h2⟩, h3⟩, h4⟩ := h
-    simp only at h1 h2 h3
     subst h1 h2 h3
     refine ⟨rfl, ?_⟩
     cases hg : VrfTable.get? vrf ⟨cu, cf, cv⟩ with
@@ -60,8 +59,6 @@ theorem existence_ok {c : Cfg} {vrf : VrfTable} {root : Dig} {u : Bytes} {fresh 
   · split at h
     · cases h
     · rename_i h1 h2
-      simp only [Bool.not_eq_true', Bool.not_eq_false] at h1 h2
-      simp only [Bool.not_eq_true] at h1 h2
       exact ⟨(verifyLabel_true (by simpa using h1)).2, by simpa using h2⟩
 
 theorem existenceWithCommitment_ok {c : Cfg} {vrf : VrfTable} {root : Dig} {u : Bytes} {cm : Dig}
@@ -97,5 +94,52 @@ theorem nonexistence_ok {c : Cfg} {vrf : VrfTable} {root : Dig} {u : Bytes} {fre
     · cases h
     · rename_i h1 h2
       exact ⟨(verifyLabel_true (by simpa using h1)).2, by simpa using h2⟩
+
+/-! ### accepted tree proofs against a well-formed tree with 256-bit leaves -/
+
+/-- a leaf-shaped digest is only accepted for a real leaf, at the bit string of the claimed label -/
+theorem leaf_of_membership (c : Cfg) (hc : c.Lawful) (t : CRoot) (h256 : C05.Leaves256 t)
+    (mp : MembershipProof) (v : Dig) (e : Nat) (hv : mp.hashVal = c.leafHash v e)
+    (h : verifyMembership c (t.rootHash c) mp = true) :
+    ∃ lf ∈ t.leaves, lf.lbl = mp.label.bits ∧ lf.value = v ∧ lf.ep = e := by
+  obtain ⟨lf, hlf, h1, h2, h3⟩ := C05.membership_sound_leaf c hc t mp v e hv h
+  exact ⟨lf, hlf, eq_bits_of_ofBits (h256 lf hlf) h1, h2, h3⟩
+
+/-- whatever digest it carries, an accepted membership proof for a 256-bit label is about a leaf -/
+theorem leaf_of_membership_256 (c : Cfg) (hc : c.Lawful) (hfresh : C05.EmptyLabelFresh c)
+    (t : CRoot) (hwf : t.WF) (h256 : C05.Leaves256 t)
+    (mp : MembershipProof) (hl : mp.label.len = 256)
+    (h : verifyMembership c (t.rootHash c) mp = true) :
+    ∃ lf ∈ t.leaves, lf.lbl = mp.label.bits := by
+  rcases CRoot.verifyMembership_cases c hc t mp h with
+    ⟨h1, -⟩ | ⟨o, ho, ⟨-, h1, -⟩ | ⟨a, s, rfl, hs, h1, -⟩⟩
+  · rw [h1] at hl; exact absurd hl (by decide)
+  · exfalso
+    rw [h1] at hl
+    exact hfresh c.emptyLabel.bits (Nat.le_of_eq (bits_length_256 _ hl)) (ofBits_bits_256 _ hl)
+  · have hch : t.Child a := ho.elim (fun h => Or.inl h.symm) (fun h => Or.inr h.symm)
+    have hsub : ∀ lf ∈ s.leaves, lf ∈ t.leaves := fun lf hlf =>
+      CRoot.mem_leaves.mpr ⟨a, hch, hs.leaves_subset hlf⟩
+    cases s with
+    | leaf q w f =>
+      have hm : (⟨q, w, f⟩ : Leaf) ∈ t.leaves := hsub _ (by simp [CTree.leaves])
+      exact ⟨⟨q, w, f⟩, hm, eq_bits_of_ofBits (h256 _ hm) h1.symm⟩
+    | node q l r =>
+      exfalso
+      have hswf : (CTree.node q l r).WF := CTree.WF.sub hs (CRoot.WF.child hwf hch)
+      have := CTree.WF.node_length_lt hswf (fun lf hlf => h256 lf (hsub lf hlf))
+      rw [h1] at hl
+      simp only [CTree.lbl, NodeLabel.ofBits_len] at hl
+      omega
+
+/-- an accepted non-membership proof for a 256-bit label: no leaf at its bit string -/
+theorem no_leaf_of_nonmembership (c : Cfg) (hc : c.Lawful) (hfresh : C05.EmptyLabelFresh c)
+    (t : CRoot) (hwf : t.WF) (h256 : C05.Leaves256 t)
+    (np : NonMembershipProof) (hl : np.label.len = 256)
+    (h : verifyNonMembership c (t.rootHash c) np = true) :
+    ∀ lf ∈ t.leaves, lf.lbl ≠ np.label.bits := by
+  intro lf hlf he
+  apply C05.nonmembership_sound c hc hfresh t hwf h256 np h lf hlf
+  rw [he, ofBits_bits_256 _ hl]
 
 end Akd.Snd
